@@ -321,9 +321,11 @@ def write_back(tree, related_classes, sites, only=None, keep=(), methods=()):
                             and not any(isinstance(x, ast.Starred) for x in st.value.elts):
                         names = {t.id for t in st.targets[0].elts}
                         reads = {n.id for x in st.value.elts for n in ast.walk(x) if isinstance(n, ast.Name)}
-                        pure = all(isinstance(n, (ast.Name, ast.Attribute, ast.Constant, ast.Load, ast.BinOp, ast.operator,
-                                                  ast.UnaryOp, ast.unaryop, ast.Subscript, ast.Slice))
-                                   for x in st.value.elts for n in ast.walk(x))
+                        # (both sides are evaluated left to right either way; only the moment the first name is bound
+                        # differs, and nothing on the right reads it)
+                        pure = not any(isinstance(n, (ast.Yield, ast.YieldFrom, ast.Await, ast.NamedExpr, ast.Lambda,
+                                                      ast.ListComp, ast.GeneratorExp, ast.SetComp, ast.DictComp))
+                                       for x in st.value.elts for n in ast.walk(x))
                         if not (names & reads) and len(names) == len(st.targets[0].elts) and pure:
                             blk[k:k + 1] = [ast.copy_location(ast.Assign(targets=[t], value=x), st)
                                             for t, x in zip(st.targets[0].elts, st.value.elts)]
